@@ -22,15 +22,15 @@ from .model import Program, AnalysisError, PKG_REL, repo_root
 def _violations(prop, root):
     from . import props
 
+    from . import report
+
     P = Program(root)
     out = set()
     spec = props.PROPS[prop]
-    for rule in spec["rules"]:
-        r = rule(P) if not isinstance(rule, tuple) else rule[0](P, **rule[1])
-        for rr in r if isinstance(r, list) else [r]:
-            for o in rr.obs:
-                if not o.ok:
-                    out.add((o.rule if not o.undecided else "UNDECIDED:" + o.rule, o.file, o.function, o.construct))
+    for rr in report.run_rules(P, spec["rules"]):
+        for o in rr.obs:
+            if not o.ok:
+                out.add((o.rule if not o.undecided else "UNDECIDED:" + o.rule, o.file, o.function, o.construct))
     return out
 
 
@@ -71,6 +71,9 @@ def _run_variant(args):
                 return (v["id"], "ok", "fails closed")
             return (v["id"], "error", f"analysis error on variant: {e}")
         new = got - base
+        if v.get("expect") == "ANALYSIS-ERROR":
+            und = [x for x in new if x[0].startswith("UNDECIDED:")]
+            return (v["id"], "ok", "fails closed") if und and len(und) == len(new) else (v["id"], "missed", f"expected an undecided outcome; new: {sorted(new)[:3]}")
         if v.get("expect") is None:
             if new:
                 return (v["id"], "false-alarm", f"benign twin raised {sorted(new)[:2]}")
